@@ -1055,12 +1055,18 @@ func genericExportToArrayOrSlice(o *Object, dst reflect.Value, typ reflect.Type,
 		} else {
 			dst.Set(reflect.MakeSlice(typ, len(values), len(values)))
 		}
-		ctx.putTyped(o, typ, dst.Interface())
+		if typ.Kind() != reflect.Array {
+			ctx.putTyped(o, typ, dst.Interface())
+		}
 		for i, val := range values {
 			err = r.toReflectValue(val, dst.Index(i), ctx)
 			if err != nil {
 				return
 			}
+		}
+		if typ.Kind() == reflect.Array {
+			// an array is a value: what is remembered for a second occurrence of the same object is the filled copy
+			ctx.putTyped(o, typ, dst.Interface())
 		}
 	} else {
 		// array-like
@@ -1079,13 +1085,18 @@ func genericExportToArrayOrSlice(o *Object, dst reflect.Value, typ reflect.Type,
 				dst.Set(reflect.MakeSlice(typ, l, l))
 			}
 		}
-		ctx.putTyped(o, typ, dst.Interface())
+		if typ.Kind() != reflect.Array {
+			ctx.putTyped(o, typ, dst.Interface())
+		}
 		for i := 0; i < l; i++ {
 			val := nilSafe(o.self.getIdx(valueInt(i), nil))
 			err = r.toReflectValue(val, dst.Index(i), ctx)
 			if err != nil {
 				return
 			}
+		}
+		if typ.Kind() == reflect.Array {
+			ctx.putTyped(o, typ, dst.Interface())
 		}
 	}
 
